@@ -418,9 +418,15 @@ func (g *G) allotments(k int) []Allot {
 			remAt = g.R.IntN(k)
 		}
 	}
+	// the grammar accepts `remaining` more than once (the checker only warns that it is not
+	// last): the earlier one then stands for nothing, the last one for the rest
+	remAlso := -1
+	if remAt >= 0 && k >= 3 && !g.P.Safe && g.chance(0.08) {
+		remAlso = g.R.IntN(k)
+	}
 	for i, p := range parts {
 		switch {
-		case i == remAt:
+		case i == remAt || i == remAlso:
 			out[i] = Allot{K: "rem"}
 		case g.chance(g.P.PVarUse*0.5) && len(g.Prog.Stmts) >= 0 && g.canDeclare():
 			name := g.declare("portion", g.varPortionText(p), "", nil)
